@@ -8,6 +8,32 @@ HERE = os.path.dirname(os.path.dirname(os.path.abspath(__file__)))
 TECH = "TLA+ spec checked by TLC; every TLC transition replayed into the real code (conformance)"
 
 CHECKS = {
+    "C12": dict(
+        text="Hankel.tla: TLC enumerates every (channels 1..3(4), ordered reference subset, block rows 1..3(5), record "
+             "length, method) shape and checks SingleLag, InRange, ToeplitzInRange, ToeplitzIsReflectedHankel, Shape, "
+             "VecBijective on the index sets; for every shape the real build_hank is probed on the impulse basis of each "
+             "argument against generic integer data in the other: non-zero entries only in the predicted block / channel "
+             "/ reference at the predicted single lag, one weight per entry (one overall for cov_mm, a function of the lag "
+             "for cov_R), bilinearity on random pairs, and for the data-driven method the Gram identity with the projection "
+             "assembled from the specification's index sets; SSIResult.H of class runs equals build_hank(data, data[ref]).",
+        ref="DESIGN.md §4.4, §5 C12",
+        note="Trusted: TLC, numpy for the projection Gram matrix. The number of averaged products is not fixed by the "
+             "property (a zero entry is accepted only at the first / last product of the model's range).",
+        technique="TLC model checking of Hankel.tla + impulse-basis probing of the real build_hank for every enumerated shape",
+    ),
+    "C17": dict(
+        text="Second sentence (decided by the specification): Hankel.tla's covariance-factor construction (BlocksPartition, "
+             "VecBijective) - build_hank(calc_unc=True) on impulse products and integer data must equal the factor assembled "
+             "from the specification's index sets (block-wise estimate minus full estimate, column stacking, "
+             "1/sqrt(nb(nb-1))). First sentence (delegated relation, weakest binding): Perturb.tla fixes vectorisation "
+             "(Unvec inverts VecCol), aggregation (sum of squares over factor columns) and the enumeration of shapes / orders "
+             "/ column counts; the directional derivative is a central finite difference of the library's own SSI_fast -> "
+             "SSI_poles at two step sizes that must agree to 1e-3, under the property's conditioning guards.",
+        ref="DESIGN.md §4.4, §5 C17, §6",
+        note="Trusted: TLC, numpy. For the first sentence nothing numerical is computed by TLC; the oracle is numerical "
+             "differentiation of the code under test. Threshold 5e-3 relative (observed worst 6e-6 after the two repairs).",
+        technique="TLC model checking of Hankel.tla / Perturb.tla + replay into build_hank; delegated finite-difference relation for Fn_cov",
+    ),
     "C14": dict(
         text="Setup.tla models the setup life cycle (decimate/detrend/filter/rollback/add) with a symbolic data term "
              "and exact rational metadata; TLC checks MetaTruthful, RollbackRestores, BindingFrozen, BoundToCurrent on "
@@ -45,6 +71,19 @@ CHECKS = {
         note="Trusted: TLC, harness/headless.py (Tk stand-ins; events enter through the dialog's own canvas wiring). "
              "Exact ties may resolve either way. Diagram drawing is stubbed during the walk (real in the hand-over).",
         technique="TLC model checking of Pick.tla + replay of every event sequence on the real dialog and mpe_from_plot",
+    ),
+    "C02": dict(
+        text="PoserMerge.tla (+ Layout.tla): TLC enumerates every arrangement of reference and roving sensors in every "
+             "setup's channel list (2..4 setups, 1..3 references, 0..2 roving sensors), scale patterns of either sign and "
+             "magnitude 0.05..20, and checks EverySensorOnce, RefsFirst, RovingInSetupOrder, LayoutsWellFormed; it predicts "
+             "which global sensor every merged row is, that every row carries the first setup's factor, and exact rational "
+             "statistics. Every case is merged by gen.merge_mode_shapes, gen.flatten_sns_names and "
+             "MultiSetup_PoSER.merge_results (real SingleSetups, stub algorithms) for real and complex Gaussian-integer "
+             "shapes and compared at 1e-12; mean and (population std / mean)^2 against the exact rationals.",
+        ref="DESIGN.md §4.2, §4.3, §5 C02",
+        note="Trusted: TLC, exact Fractions / Gaussian integers of harness/tables.py. The end-to-end clause (shapes from SSI "
+             "runs) is covered through Ident.tla in the C01/C03 machinery when present.",
+        technique="TLC model checking of PoserMerge.tla + replay of every layout through merge_mode_shapes / merge_results",
     ),
     "C06": dict(
         text="Fdd.tla: TLC enumerates singular-value tables (exact ratio comparison by cross-multiplication), selected "
